@@ -254,6 +254,10 @@ def run(tier):
     rep.floor("document marker tests in the flow/plain scalar scanners", markers.check(rep, F, only={SCANNER + "::scan_plain_scalar", SCANNER + "::scan_flow_scalar"}), 2)
     rep.extra["escape_table"] = {("\\" + (chr(k) if k > 32 else "x%02x" % k)): "U+%04X" % v for k, v in sorted(named.items())}
     rep.extra["hex_lengths"] = {"\\" + chr(k): v for k, v in sorted(hexlen.items())}
+    # "one line break becomes a space, n+1 consecutive breaks become n newlines": a break of the input is one break whatever its spelling -
+    # the plain and quoted scalar scanners consume breaks only through the helpers that take CR LF as a whole
+    from . import C05 as _C05
+    _C05.breaks_are_single_line_feeds(rep, F, roots=[SCANNER + "::scan_plain_scalar", SCANNER + "::scan_flow_scalar"], what="a plain or quoted scalar", floor=4)
     # the character classes the scalar scanners cut text with
     from . import charclass
     rep.floor("character classes compared with their productions", charclass.check(rep, F, ["is_z", "is_break", "is_breakz", "is_blank", "is_blank_or_breakz", "is_flow", "is_hex"]), 6)
